@@ -153,3 +153,14 @@ def fault_specs(tier, modes=MODES):
                 add('%s: 3 calls (<=2 files each) + close; %s' % (mname, sched), cont, chunk, [call(1, 2), call(1, 2), call(1, 2)], 60, fault=fn)
                 if not cont: add('%s: 2 blocks then 1 block + close; %s' % (mname, sched), cont, chunk, [call(2, 2), call(1, 2)], 60, fault=fn)
     return S
+
+
+def session_specs(tier, modes=MODES):
+    S = []
+    def add(name, cont, chunk, calls, cost=1, **kw):
+        S.append(dict(name=name, n=1, d=1, sc=1, fc=1000, cont=cont, chunk=chunk, calls=calls, cost=cost, checker='session', fresh=False, getters=False, **kw))
+    for mname, cont, chunk in modes:
+        add('%s: later session, 2 calls (<=2 files each), any finalized file may already exist' % mname, cont, chunk, [call(1, 2), call(1, 2)], 10)
+        if tier == 'thorough' and not cont:
+            add('%s: later session, 2 blocks then 1 block' % mname, cont, chunk, [call(2, 2), call(1, 2)], 40)
+    return S
